@@ -91,15 +91,16 @@ def impl(c):
 
 def oracle(c, r):
     # value-returning helpers render as [0, 2, ...]
-    if c.tag.startswith('wide /'):
+    if r[0] == 2 and r[1] == 1:
+        # a ValueError after the request has gone out is not one of the documented outcomes of a reply either
         cfgv, ops = cl.case_ops(c)
-        n = len([o for o in ops if o[0] == 'call'])
-        for d in cl.parse_calls(r, n)[0]:
-            # after the request went out, whatever comes back must end in a documented outcome (an argument the builder refuses
-            # with another exception class, before anything is sent, is C07's subject, not this property's)
-            if d['kind'] == 'raised' and d['err'] not in DOCUMENTED and any(e[0] == 'S' for e in d['events']):
-                return ('internal-error/%s' % c.tag.split(' / ')[1], 'an internal error (code %d) escaped in history %r' % (d['err'], ops))
-        return None
+        d = cl.parse_calls(r, 1)[0][0]
+        if any(e[0] == 'S' for e in d['events']):
+            from harness import isospec
+            kind, why = isospec.expected(cfgv, ops[0][1], ops[0][2], ops[0][3])
+            if kind == 'reject' and str(why).startswith('extended data size'):
+                return ('ext-size-checked-after-send', 'the extended data size is missing or out of range: ValueError raised only when the reply %s is decoded' % ops[0][4][0][1].hex())
+            return ('valueerror-after-send/%s' % c.tag.split('(')[0], 'reply %s made %s raise ValueError after the request was sent' % (ops[0][4][0][1].hex() if ops[0][4] else '-', c.tag))
     if r[0] == 2:
         err = r[1]
         if err not in DOCUMENTED:
